@@ -230,8 +230,11 @@ def main():
             "distinct_nontrivial": st["distinct_histories_with_fault_fired"],
             "rule": "one evaluation = one call of a Python driver function of the real extension module with a Probe callable; for every scenario "
                     "(driver x vector length(s) 1..12 x user function x container, points seeded) the fault-free run is executed twice and then EVERY plan of the "
-                    "fault table is applied (raise one of 5 exception kinds incl. a BaseException 'cancel' at invocation 1, transient or permanent; raise at invocation "
-                    "k>=2; wrong-typed return at invocation 1 or 2). distinct_nontrivial = distinct (scenario, plan, invocation log, outcome kind) histories in which a "
+                    "fault table is applied (raise one of 8 exception kinds - incl. a BaseException 'cancel', KeyboardInterrupt, StopIteration and an exception whose __str__ "
+                    "fails - at invocation 1, transient or permanent; raise at invocation k>=2; wrong-typed return (7 kinds) at invocation 1 or 2; re-entrancy: the callable "
+                    "calls the same driver again, same lengths, other point, before using its own argument); after every run in which a fault fired the fault-free run is "
+                    "repeated (residue), and every argument a callable was handed is retained and re-examined after the driver returned and after later driver calls. "
+                    "distinct_nontrivial = distinct (scenario, plan, invocation log, outcome kind) histories in which a "
                     "planned fault actually fired",
             "samples": r1["samples"],
             "scenarios": st["scenarios"], "plans_per_scenario": st["plans_per_scenario"], "faults_planned": st["faults_planned"],
@@ -246,7 +249,11 @@ def main():
             "invariants": ["R  (conformance tier) every register, repr and driver result equals the Rust reference model bit for bit",
                            "F1 an exception raised by the first invocation comes out of the driver as that very object",
                            "F2 a fault planned for invocation k>=2 never fires and the outcome equals the fault-free run bit for bit",
-                           "F4 the fault-free run is deterministic"],
+                           "F4 the fault-free run is deterministic",
+                           "F5 after a run in which a fault fired, the fault-free run still returns the same outcome",
+                           "A1 an argument handed to the callable is not changed afterwards - not after the driver returned, not by later driver calls",
+                           "R1 re-entrancy: an inner call of the same driver from inside the callable changes neither the outer outcome nor its own"],
+            "residue_checks": st.get("residue_checks", 0), "arguments_retained_and_rechecked": st.get("arguments_retained_and_rechecked", 0),
             "known_findings_hit": known_hit,
             "fault_tier_finding_keys": [v["finding_key"] for v in r1.get("violations", [])],
             "fault_table_enumerated_completely_per_scenario": True,
@@ -255,7 +262,8 @@ def main():
         "assumptions": ["evaluations / distinct_nontrivial count the fault tier only; the conformance tier is reported separately under coverage.conformance_tier and contains no fault or schedule",
                         "the name mapping Python -> Rust in sim_py/twin/src/main.rs is the statement of 'the corresponding Rust operation'; reflected operators are c + x, -x + c, x * c, x.recip() * c",
                         "the twin evaluates vector-valued drivers on the dynamically sized Rust types for every length (the module uses fixed-size types up to 10); results agree bit for bit on the pinned tree",
-                        "numpy-array operands of the operators are not exercised (numpy is not installed for the system python3)",
+                        "numpy-array operands of the operators are exercised only when an installed interpreter can import numpy (coverage.conformance_tier.numpy says which was used)",
+                        "in-place operator forms (y = x; y += b ...) are part of the generated programs: the reference is  let mut y = x.clone(); y += b  - the aliased register must stay what it was",
                         "the reference for a failing callable is the Rust try_* contract: closure invoked once, its error returned unchanged",
                         "the fault table is enumerated completely per scenario; scenarios enumerate drivers x lengths x functions, evaluation points are seeded"],
         "wall_s": round(wall, 2), "violations": violations,
